@@ -1733,6 +1733,129 @@ ctl('g3-row-clamp-into-column-c20', 'C20', 'G3', 'modules/dagaz/grid_spatial_par
     """		cellX = (uint)(math.Min((float64)(cellY), (float64)(len(grid.Grid)-1)))""", 'IntersectQuad', 'the defect fixed in IntersectQuad, re-introduced')
 # ---- ids / registry / silent drops / flag set
 
+# ---- round 9 rules
+ctl('g8-frame-limit-lowered', 'C14', 'G8', 'websocket/handler.go',
+    """	handler := handler{
+		Conn:    conn,
+		Handler: h,
+	}
+
+	handler.Handle(ctx)""",
+    """	handler := handler{
+		Conn:    conn,
+		Handler: h,
+	}
+	conn.MaxPayloadBytes = 16 << 10
+
+	handler.Handle(ctx)""", 'frame-limit-not-lowered', 'seed C14-21')
+ctl('g8-frame-limit-lowered-c04', 'C04', 'G8', 'websocket/handler.go',
+    """	handler := handler{
+		Conn:    conn,
+		Handler: h,
+	}
+
+	handler.Handle(ctx)""",
+    """	handler := handler{
+		Conn:    conn,
+		Handler: h,
+	}
+	conn.MaxPayloadBytes = len(conn.Request().URL.Path) + 65536
+
+	handler.Handle(ctx)""", 'frame-limit-not-lowered', 'seed C04-21 (a limit computed at run time)')
+ctl('e6-session-closed-by-a-context-callback', 'C11', 'E6', 'models/session.go',
+    """	instrumentCountSession(session.AppKey)
+	return nil""",
+    """	instrumentCountSession(session.AppKey)
+	context.AfterFunc(ctx, session.Close)
+	return nil""", 'session-closed-only-where-it-ends', 'seed C11-21')
+ctl('g2-recover-in-a-helper', 'C08', 'G2', 'websocket/handler.go',
+    """	defer func() {
+		if r := recover(); r != nil {
+			err = errors.New("handling message panicked").WithTag("panic", r)
+		}
+	}()
+
+	return h.handleMessage(ctx, msg, responder)
+}""",
+    """	defer func() {
+		if perr := panicAsError(); perr != nil {
+			err = perr
+		}
+	}()
+
+	return h.handleMessage(ctx, msg, responder)
+}
+
+func panicAsError() error {
+	if r := recover(); r != nil {
+		return errors.New("handling message panicked").WithTag("panic", r)
+	}
+	return nil
+}""", 'recover-called-by-the-deferred-function', 'seeds C08-5, C08-13')
+ctl('g6-label-set-after-increment', 'C08', 'G6', 'websocket/metrics.go',
+    """	req := conn.Request()
+	h.appKey = httpcmn.GetAppKeyFromHagallUserToken(httpcmn.GetUserTokenFromHTTPRequest(req))
+
+	wsConnectedClients.
+		With(prometheus.Labels{
+			publicEndpointLabel: h.publicEndpoint,
+			appKeyLabel:         h.appKey,
+		}).
+		Inc()
+
+	h.Handler.HandleConnect(conn)
+}""",
+    """	wsConnectedClients.
+		With(prometheus.Labels{
+			publicEndpointLabel: h.publicEndpoint,
+			appKeyLabel:         h.appKey,
+		}).
+		Inc()
+
+	h.Handler.HandleConnect(conn)
+	req := conn.Request()
+	h.appKey = httpcmn.GetAppKeyFromHagallUserToken(httpcmn.GetUserTokenFromHTTPRequest(req))
+}""", 'labels-set-before-increment', 'seed C08-12')
+ctl('s-list-answered-from-a-kept-list', 'C01', 'S-List', 'models/entity.go',
+    """	var list []*hagallpb.EntityComponent
+	for _, ecs := range s.entityComponents {
+		for _, ec := range ecs {
+			list = append(list, ec)
+		}
+	}
+	return list
+}""",
+    """	var list []*hagallpb.EntityComponent
+	if len(s.idIndex) > 64 {
+		return lastListing
+	}
+	for _, ecs := range s.entityComponents {
+		for _, ec := range ecs {
+			list = append(list, ec)
+		}
+	}
+	lastListing = list
+	return list
+}
+
+var lastListing []*hagallpb.EntityComponent""", 'ListAll:built-now', 'seed C01-16')
+ctl('j5-receipt-forwarder-per-connection', 'C19', 'J5', 'cmd/main.go',
+    """			defer conn.Close()
+
+			var rh hwebsocket.Handler""",
+    """			defer conn.Close()
+			receiptHandler.HandleReceipts(ctx)
+
+			var rh hwebsocket.Handler""", 'receipt-forwarder-started-once', 'seed C19-21')
+ctl('j5-session-store-per-connection', 'C03', 'J5', 'cmd/main.go',
+    """			defer conn.Close()
+
+			var rh hwebsocket.Handler""",
+    """			defer conn.Close()
+			sessions := sessions
+
+			var rh hwebsocket.Handler""", 'session-store-shared')
+
 os.makedirs(OUT, exist_ok=True)
 bad = 0
 names = set()
